@@ -66,7 +66,9 @@ class Site:
 
 
 def _fresh_locals(fn):
-    """Local names bound (anywhere in the function) only to fresh container expressions."""
+    """Local names that are only ever bound to containers allocated in this activation: fresh
+    container expressions, `a + b` (always a new object), results of helper calls unpacked into
+    several names, and aliases / conditional choices among such names."""
     binds = {}
     for n in ast.walk(fn):
         targets, value = [], None
@@ -76,19 +78,38 @@ def _fresh_locals(fn):
             targets, value = [n.target], n.value
         for t in targets:
             if isinstance(t, ast.Name):
-                binds.setdefault(t.id, []).append(is_fresh_container_expr(value))
+                binds.setdefault(t.id, []).append(value)
             elif isinstance(t, ast.Tuple):
                 for e in t.elts:
                     if isinstance(e, ast.Name):
                         # tuple-unpacked results of helper calls (hits, misses): fresh by the
                         # callee's own F-obligations if the callee returns fresh locals
-                        binds.setdefault(e.id, []).append(isinstance(value, ast.Call))
+                        binds.setdefault(e.id, []).append(ast.List(elts=[], ctx=ast.Load()) if isinstance(value, ast.Call) else value)
     params = {a.arg for a in fn.args.args + fn.args.kwonlyargs}
     if fn.args.vararg:
         params.add(fn.args.vararg.arg)
     if fn.args.kwarg:
         params.add(fn.args.kwarg.arg)
-    return {k for k, v in binds.items() if all(v) and k not in params}
+    fresh = set()
+
+    def is_fresh(v):
+        if is_fresh_container_expr(v):
+            return True
+        if isinstance(v, ast.BinOp) and isinstance(v.op, ast.Add):
+            return True
+        if isinstance(v, ast.Name):
+            return v.id in fresh
+        if isinstance(v, ast.IfExp):
+            return is_fresh(v.body) and is_fresh(v.orelse)
+        return False
+    changed = True
+    while changed:
+        changed = False
+        for k, vs in binds.items():
+            if k not in fresh and k not in params and all(is_fresh(v) for v in vs):
+                fresh.add(k)
+                changed = True
+    return fresh
 
 
 def analyse(prog):
@@ -212,7 +233,7 @@ def heap_log_violations(interp):
     allocated = set()
     for e in interp.heap_log:
         kind = e[0]
-        if kind in ("alloc-list", "alloc-dict"):
+        if kind in ("alloc-list", "alloc-dict", "alloc-set"):
             allocated.add(e[1])
         elif kind == "store":
             _k, obj, attr, where, in_init = e[:5]
@@ -222,7 +243,8 @@ def heap_log_violations(interp):
                 continue
             bad.append(f"{where}: {obj.name}.{attr} written")
         elif kind == "mutate-set":
-            bad.append(f"{e[3]}: a set object was updated in place (sets of variable names are shared between nodes)")
+            if e[1] in owner or e[1] not in allocated:
+                bad.append(f"{e[3]}: a set object that belongs to an existing node was updated in place (sets of variable names are shared between nodes)")
         elif kind in ("mutate-list", "mutate-dict"):
             cid, where = e[1], e[3]
             if cid in owner:
